@@ -247,6 +247,8 @@ class World:
             return True  # never echo the text: action results are rendered into later prompts
         if v == "R":
             return False
+        if v == "N":
+            return None   # a rail action that signals "not allowed" with a falsy value that is not False
         return v[1]
 
     def _dialog_sync(self, q: Optional[str] = None):
